@@ -16,13 +16,13 @@ CHECKS = {
          "Held on all (state, address, c) triples of the histories produced, incl. forked trees with c>=2 and malformed/foreign addresses."),
  "C07": ("exploration","history monitor: best-chain header list vs get_block_headers for all ranges","4 C07",
          "Held on all (start,end) pairs up to tip+2 on every state of the histories produced (stable, unstable, straddling, truncated, error classes)."),
- "C06": ("exploration","trace monitor over page chains with interleaved events; forged/random page blobs","4 C06",
+ "C06": ("exploration","trace monitor over page chains (page sizes 1-7, 64-300 over wide transactions, the real 1000) with interleaved events; forged/random page blobs","4 C06",
          "Held on the page chains produced: 0-2 events (best chain grows, competing fork grows, ancestors stabilise, first tip's chain discarded, upgrade) between consecutive page requests; concatenation compared with the ledger at the first response's tip; explicit-error outcomes only when that tip left the tree; no blob traps."),
  "C08": ("fault_enumeration","twin-run differential + frozen-snapshot monitor under controlled per-round instruction budgets","4 C08",
          "Held on the budget schedules produced (random, pause-everywhere, and every subset of pause positions for a designed small block): full user-visible snapshot at every pause point equals the one before the ingestion began, no get_successors request while ingesting, bounded rounds, final snapshot equals the unsliced twin's."),
- "C10": ("exploration","history monitor: admission predicate by construction + model comparison after every response","4 C10",
+ "C10": ("exploration","history monitor: admission predicate by construction + model comparison after every response (incl. invalid bodies under previously announced headers and the stored announced-header set)","4 C10",
          "Held on the responses produced: 18 classes of bad elements at every position among valid blocks, valid-only responses with every kind of announced header (garbage, invalid, duplicate, unconnected, chained, stale); error counter +1 exactly, rest of the response dropped, tree and every address answer equal (previous state + valid prefix), no trap."),
- "C12": ("exploration","differential against an own merkle/uniqueness checker over complete mutation families","4 C12",
+ "C12": ("exploration","differential against an own merkle/uniqueness checker over complete mutation families, through the validator and through the canister's insert path (also after the header was announced)","4 C12",
          "Held on valid blocks with every transaction count 1..40 and all their merkle-preserving duplications, swaps, removals, coinbase moves, root replacements, through BlockValidator::validate_block and state::insert_block."),
  "C13": ("fault_enumeration","trace monitor over the request/reply log under a cooperative scheduler at the single await point","4 C13",
          "Held on the schedules produced (random, and all op sequences up to a length bound over a 6-letter alphabet): single outstanding request, consecutive follow-ups, initial request after reject/upgrade naming anchor + all unstable hashes, bit-identical reassembly, no double application, zero error counters with an honest adapter, bounded progress after faults stop."),
@@ -30,13 +30,13 @@ CHECKS = {
          "Held on the fee-paying histories produced (forks with different transactions, reorgs, empty blocks, eager/lazy, upgrades): every answer is 101 non-decreasing values equal to the nearest-rank percentiles of an admissible population, unchanged while the tip stays."),
  "C16": ("exploration","per-call conservation monitor on the mock cycles ledger + finite client/default table comparison","4 C16",
          "Held on the calls produced: random and default fee tables x instruction counts x error outcomes x attached cycles around the maximum; client constants compared with the default tables exhaustively (3 networks x 5 endpoints, stepped lengths)."),
- "C19": ("exploration","differential against an own strict BIP144 parser (three-valued) + forward log","4 C19",
+ "C19": ("exploration","differential against an own strict BIP144 parser (three-valued) + forward log, on synced and on lagging canisters","4 C19",
          "Held on the payloads produced: generated transactions, every truncation, extensions, prefixes, all single-bit flips of small transactions, random bytes, zero-input encodings, under the flag x network matrix."),
  "C20": ("exploration","structural invariant at a hook, recomputed from the model's live tree at every quiescent point","4 C20",
          "Held on the histories produced (forks discarded at various depths, transactions shared between forks and spent in the same block, upgrades): tree = block cache = delta maps = live set, exact reference counts and tx outs, announced headers pruned, tip depths and per-block metrics exact."),
- "C09": ("fault_enumeration","twin-run differential + before/after snapshot monitor with an upgrade injected at every message boundary","4 C09",
+ "C09": ("fault_enumeration","twin-run differential + before/after snapshot monitor (query answers, stored announced headers, gated probes, configuration incl. the upgrade argument) with an upgrade injected at every message boundary","4 C09",
          "Held on the scripts produced: upgrade before every message of fetch/ingest scripts (phases: idle, fetching, response stored, partial pages received, ingestion paused), with and without a config argument; every query answer equal before/after, next request initial, drained final state equal to the twin's; plus upgrades at random points of forked histories. One known finding (utxos_length) is matched by an exact defect model."),
- "C11": ("exploration","differential against an own implementation of the consensus header rules (numeric targets, decisions with a scripted header store, real-chain replay, mined regtest end-to-end)","4 C11",
+ "C11": ("exploration","differential against an own implementation of the consensus header rules (numeric targets, decisions with a scripted header store, real-chain replay, mined regtest end-to-end, and the canister's own header store driven across a multiple of 2016 with pending announced headers)","4 C11",
          "Held on the chains and candidates produced on three networks; both directions of every rule."),
  "C14": ("exploration","history monitor: must/may sets of announced headers x full endpoint/flag/network matrix at every state","4 C14",
          "Held on every matrix cell of the states produced; between the certain and the possible header sets either outcome is accepted. The metrics endpoint cannot be called natively (ic0) and is not covered."),
